@@ -78,18 +78,19 @@ struct Ctx {
     std::map<Str, std::vector<Str>> samples;   // category -> few samples
     std::map<Str, VioAgg> violations;
     std::vector<uint64_t> bitmap;   // linear-counting bitmap for distinct non-trivial cases
-    static const size_t BITMAP_BITS = (size_t)1 << 23;
+    size_t bitmap_bits = (size_t)1 << 23;           // quick: 2^23; thorough: 2^27 (set_bitmap_bits), so that the lower bound does not saturate
     // flight recorder (mmapped by main)
     volatile uint64_t* recorder = nullptr;     // [0]=case index about to run, [1]=stage code
     char* recorder_note = nullptr;  size_t recorder_note_cap = 0;
 
-    Ctx() : bitmap(BITMAP_BITS / 64, 0) {}
+    Ctx() : bitmap(((size_t)1 << 23) / 64, 0) {}
+    void set_bitmap_bits(size_t bits) { bitmap_bits = bits; bitmap.assign(bits / 64, 0); }
     long param_int(const Str& k, long dflt) const {
         auto it = params.find(k); return it == params.end() ? dflt : atol(it->second.c_str()); }
     Str param(const Str& k, const Str& dflt = "") const {
         auto it = params.find(k); return it == params.end() ? dflt : it->second; }
     void count(const Str& name, uint64_t n = 1) { counters[name] += n; }
-    void distinct(uint64_t h) { size_t b = (size_t)(h % BITMAP_BITS); bitmap[b >> 6] |= (1ull << (b & 63)); }
+    void distinct(uint64_t h) { size_t b = (size_t)(h % bitmap_bits); bitmap[b >> 6] |= (1ull << (b & 63)); }
     void sample(const Str& cat, const Str& s, size_t keep = 4) {
         auto& v = samples[cat];
         if (v.size() < keep) v.push_back(s);
